@@ -45,11 +45,25 @@ def gen_behaviours(seed, n, deep):
     return behs
 
 
-def _drive(ctx, behs, tag, gomaxprocs, race=False):
+def gen_tight(seed, n, rounds):
+    """Tight-budget behaviours: MaxComputeUnits = the requested CU, round k runs in virtual epoch k, every relay is
+    completed before the next round => each provider has room for exactly one more relay when 16 goroutines, released
+    together, ask for it.  The only way to see a check-then-act race in the reservation (probabilistic: a few hits per
+    1000 rounds on a 16-core box, see notes)."""
+    rnd = random.Random(seed * 7919 + 13)
+    behs = []
+    for i in range(n):
+        cu = rnd.choice([5, 10])
+        behs.append({"id": i, "seed": rnd.randint(1, 2 ** 31 - 2), "g": 16, "np": 2, "maxcu": cu, "cus": [cu],
+                     "tight": rounds, "snap": 3})
+    return behs
+
+
+def _drive(ctx, behs, tag, gomaxprocs, race=False, parallel=8):
     binp = vlib.go_test_build("conssess", race=race)
     ipath = os.path.join(ctx.work, tag + "_in.json")
     tpath = os.path.join(ctx.work, tag + "_trace.ndjson")
-    vlib.write_json(ipath, {"maxsess": MAXSESS, "parallel": 8, "behaviours": behs})
+    vlib.write_json(ipath, {"maxsess": MAXSESS, "parallel": parallel, "behaviours": behs})
     if os.path.exists(tpath):
         os.remove(tpath)
     env = {"VERIF_IN": ipath, "VERIF_OUT": tpath, "GOMAXPROCS": str(gomaxprocs)}
@@ -72,6 +86,7 @@ def _stats(rows, cov):
     c = cov.setdefault("events", {})
     pre = None
     relst = {}
+    rnd = 0
     for r in rows:
         e = r["ev"]
         key = e + (":" + r["kind"] if e == "end" else "") + (":" + r["tag"] if e == "barrier" else "") + (
@@ -80,6 +95,10 @@ def _stats(rows, cov):
         if e == "reset":
             pre = None
             relst = {}
+            rnd = 0
+        elif e == "callN":
+            rnd += 1
+            c["tight_rounds"] = c.get("tight_rounds", 0) + 1
         elif e == "call":
             if r.get("addon"):
                 c["call_addon"] = c.get("call_addon", 0) + 1
@@ -96,6 +115,10 @@ def _stats(rows, cov):
                 c["got_ve"] = c.get("got_ve", 0) + 1   # reservation only possible through a virtual epoch
             if r["rep"]:
                 c["got_with_reported_providers"] = c.get("got_with_reported_providers", 0) + 1
+        elif e == "barrier" and r["tag"] == "tight":
+            # the premise of the phase: every provider is exactly at its limit max*(ve+1) with the relays in flight
+            if all(o["used"] == o["max"] * rnd for o in r["objs"]):
+                c["tight_barrier_at_limit"] = c.get("tight_barrier_at_limit", 0) + 1
         elif e == "barrier":
             pre = r
             if any(s["lk"] for o in r["objs"] for s in o["sess"]):
@@ -108,9 +131,9 @@ def _stats(rows, cov):
                 c["old_epoch_session_in_flight"] = c.get("old_epoch_session_in_flight", 0) + 1
 
 
-def _validate(ctx, behs, tag, gomaxprocs, race=False, conf=False):
+def _validate(ctx, behs, tag, gomaxprocs, race=False, conf=False, parallel=8):
     """Drive + Obs validation. Returns None or a dict describing the first violated invariant."""
-    tpath, _ = _drive(ctx, behs, tag, gomaxprocs, race)
+    tpath, _ = _drive(ctx, behs, tag, gomaxprocs, race, parallel)
     rows = vlib.read_ndjson(tpath)
     nreset = sum(1 for r in rows if r["ev"] == "reset")
     if nreset != len(behs):
@@ -189,13 +212,16 @@ def _selftest(ctx, tpath):
 
 
 def _repro(ctx, bad, repeat=12):
+    tight = bool((bad["beh"] or {}).get("tight"))
+    if tight:
+        repeat = 3
     behs = []
     for i in range(repeat):
         b = dict(bad["beh"])
         b["id"] = i
         behs.append(b)
-    again = _validate(ctx, behs, "repro", bad["gomaxprocs"])
-    return again, {"behaviours": behs, "gomaxprocs": bad["gomaxprocs"]}
+    again = _validate(ctx, behs, "repro", bad["gomaxprocs"], parallel=(1 if tight else 8))
+    return again, {"behaviours": behs, "gomaxprocs": bad["gomaxprocs"], "parallel": (1 if tight else 8)}
 
 
 def _what(v):
@@ -245,8 +271,14 @@ def run(ctx):
         if dead:
             raise vlib.Infra("vacuous model: actions never taken in the coverage runs: %s" % dead)
 
+    # design-level sensitivity: splitting the reservation's limit check from the addition must break Bound
+    sp = vlib.tlc_mc(ctx, "ConsumerSessions", "ConsumerSessions_split.cfg", timeout=900, tag="split")
+    if sp["violated"] != "invariant:Bound":
+        raise vlib.Infra("design-level variant SplitReserve=TRUE does not violate Bound (%s, see %s)" % (sp["violated"], sp["outfile"]))
+    ctx.cov["design_variant_split_reserve"] = "Bound violated as expected (check-then-act race is visible to the model)"
     ctx.assumptions += [
         "schedules are those the Go runtime produces (GOMAXPROCS sweep, -race in the thorough tier): weaker than exhaustive schedules",
+        "races inside one lock-free window of the reservation are only probed probabilistically (tight-budget phase: 3000+ rounds of 16 goroutines competing for the last free CU slot of a provider, GOMAXPROCS=16)",
         "TLC bounded constants (specs/ConsumerSessions_mc*.cfg); real MaximumNumberOfFailuresAllowedPerConsumerSession=15 vs model ConsecLimit",
         "fake provider endpoints are healthy gRPC servers (no connection failures); metrics manager is the no-op one",
         "the blocked-provider rule is decided on sequential relays embedded in the concurrent history (all other relays parked, some holding sessions)",
@@ -255,15 +287,23 @@ def run(ctx):
     runs = ctx.pick([(1, 10, False), (4, 12, False), (16, 10, False)],
                     [(1, 30, False), (2, 30, False), (4, 40, False), (16, 40, False), (4, 24, True)])
     total = 0
-    for k, (gmp, n, race) in enumerate(runs):
-        behs = gen_behaviours(ctx.seed * 1000 + k, n, deep=DEEP)
+    # the tight-budget phase runs one behaviour at a time under GOMAXPROCS=16 (it needs real parallelism)
+    tight = gen_tight(ctx.seed, ctx.pick(1, 3), ctx.pick(3000, 5000))
+    jobs = [("normal", k, gmp, n, race) for k, (gmp, n, race) in enumerate(runs)]
+    jobs.insert(1, ("tight", len(runs), 16, len(tight), False))
+    for mode, k, gmp, n, race in jobs:
         total += n
-        tag = "run%d_p%d%s" % (k, gmp, "_race" if race else "")
-        bad = _validate(ctx, behs, tag, gmp, race=race, conf=(k == 0 or (not ctx.quick and k == 2)))
+        if mode == "tight":
+            behs, tag = tight, "tight_p%d" % gmp
+            bad = _validate(ctx, behs, tag, gmp, parallel=1)
+        else:
+            behs = gen_behaviours(ctx.seed * 1000 + k, n, deep=DEEP)
+            tag = "run%d_p%d%s" % (k, gmp, "_race" if race else "")
+            bad = _validate(ctx, behs, tag, gmp, race=race, conf=(k == 0 or (not ctx.quick and k == 2)))
         if bad:
             again, replay_obj = _repro(ctx, bad)
             if again is None or FAMILY.get(again["inv"], again["inv"]) != FAMILY.get(bad["inv"], bad["inv"]):
-                raise vlib.Infra("counter-example not reproduced in 12 fresh executions: %s (%s)" % (bad["sig"], _what(bad)))
+                raise vlib.Infra("counter-example not reproduced in fresh executions: %s (%s)" % (bad["sig"], _what(bad)))
             ctx.violation(again["sig"], _what(again), replay_obj)
             return
         if k == 0:
@@ -287,11 +327,16 @@ def run(ctx):
     missing = [x for x in need if ev.get(x, 0) == 0]
     if missing or ev.get("got", 0) < 200:
         raise vlib.Infra("vacuous coverage: missing %s, got=%d" % (missing, ev.get("got", 0)))
+    want_rounds = sum(b["tight"] for b in tight)
+    nb = ev.get("barrier:tight", 0)
+    if ev.get("tight_rounds", 0) != want_rounds or nb == 0 or ev.get("tight_barrier_at_limit", 0) < 0.8 * nb:
+        raise vlib.Infra("tight-budget phase vacuous: rounds=%s of %s, barriers at the limit %s of %s" % (
+            ev.get("tight_rounds", 0), want_rounds, ev.get("tight_barrier_at_limit", 0), nb))
 
 
 def replay(ctx, path):
     with open(path) as f:
         obj = vlib.json.load(f)
-    bad = _validate(ctx, obj["behaviours"], "replay", obj.get("gomaxprocs", 4))
+    bad = _validate(ctx, obj["behaviours"], "replay", obj.get("gomaxprocs", 4), parallel=obj.get("parallel", 8))
     if bad:
         ctx.violation(bad["sig"], "replayed behaviour still fails: " + _what(bad), obj)
